@@ -9,6 +9,7 @@ expressions together with the matching `sd` expression of the model (SysData.v).
 Deterministic (fixed PRNG seed): the same file on every run for the same arity list."""
 import os
 import random
+import re
 import sys
 
 sys.path.insert(0, os.path.dirname(os.path.abspath(__file__)))
@@ -113,6 +114,16 @@ def main():
     structs.append("#[derive(shred::SystemData)]\npub struct G4<'a, 'b: 'a, X: Resource + Default>(pub Option<Read<'a, X>>, pub PhantomData<&'b X>, pub S1<'a>) where X: Send;")
     s1sd = [c for c in cases if c[0] == "S1<'_>"][0][1]
     cases.append(("G4<'_, '_, D<2>>", "T(r2,P,%s)" % s1sd))
+    # members whose written type does not mention the fetch lifetime: a bare type parameter, a second lifetime
+    structs.append("#[derive(shred::SystemData)]\npub struct G5<'a, X> where X: SystemData<'a> { head: Read<'a, D<0>>, tail: X }")
+    cases.append(("G5<'_, Write<'_, D<1>>>", "T(R0d,W1d)"))
+    cases.append(("G5<'_, (Option<Write<'_, D<2>>>, (Read<'_, D<3>>, ()),)>", "T(R0d,T(w2,T(R3d,U)))"))
+    cases.append(("G5<'_, G5<'_, ReadExpect<'_, D<4>>>>", "T(R0d,T(R0d,R4p))"))
+    structs.append("#[derive(shred::SystemData)]\npub struct G6<'a, X>(pub X, pub Write<'a, D<5>>, pub X) where X: SystemData<'a>;")
+    cases.append(("G6<'_, Read<'_, D<2>>>", "T(R2d,W5d,R2d)"))
+    cases.append(("G6<'_, Option<Read<'_, D<1>>>>", "T(r1,W5d,r1)"))
+    structs.append("#[derive(shred::SystemData)]\npub struct G7<'a: 'b, 'b> { a: Read<'a, D<0>>, b: Write<'b, D<1>>, c: Option<Write<'b, D<2>>> }")
+    cases.append(("G7<'_, '_>", "T(R0d,W1d,w2)"))
     # nested derived inside tuples
     cases.append(("(S3<'_>, Read<'_, D<5>>, (S2<'_>,),)", "T(%s,R5d,T(%s))" % ([c for c in cases if c[0] == "S3<'_>"][0][1], [c for c in cases if c[0] == "S2<'_>"][0][1])))
 
@@ -123,9 +134,12 @@ def main():
     for i, (ty, sdt) in enumerate(cases):
         out.append("fn case_%d(mask: u32) -> String { obs!(mask, %s) }" % (i, ty))
     out.append("")
-    out.append("pub static CASES: &[(&str, fn(u32) -> String)] = &[")
+    out.append("pub static CASES: &[(&str, fn(u32) -> String, u32)] = &[")
     for i, (ty, sdt) in enumerate(cases):
-        out.append('    ("%s", case_%d),' % (sdt, i))
+        need = 0
+        for m in re.finditer(r"[RWrw]([0-9])", sdt):
+            need |= 1 << int(m.group(1))
+        out.append('    ("%s", case_%d, %d),' % (sdt, i, need))
     out.append("];")
     path = os.path.join(VERIF, "harness_sd", "src", "gen.rs")
     text = "\n".join(out) + "\n"
